@@ -3,7 +3,7 @@
    may re-insert the k smallest entries ([reorder_ok]). *)
 From Coq Require Import List PArith NArith Nnat ZArith Bool Lia Permutation Sorted Floats.
 From Coq Require Import ZifyBool ZifyNat ZifyN.
-From DS Require Import Base.Prelude Base.FloatBits Base.ThetaLib Base.ThetaFloat Model.Theta.
+From DS Require Import Base.Prelude Base.FloatBits Base.ThetaLib Base.ThetaFloat Base.ThetaEstimate Model.Theta.
 From DS Require Import Proofs.ThetaLibProofs Proofs.ThetaOpenAddr Proofs.ThetaProofs.
 From DS Require Gen.GenTheta.
 Open Scope N_scope.
@@ -208,6 +208,9 @@ Proof.
 Qed.
 
 (* ---- compact ---- *)
+Lemma max_theta_val' : MAX_THETA = 9223372036854775807.
+Proof. reflexivity. Qed.
+
 Lemma theta_frac_max : theta_frac MAX_THETA = PrimFloat.one.
 Proof. vm_compute. reflexivity. Qed.
 
@@ -216,6 +219,25 @@ Lemma estimate_exact : forall s, t_theta s = MAX_THETA -> sk_is_empty s = false 
 Proof.
   intros s E Hne. unfold sk_estimate. rewrite Hne, E, theta_frac_max.
   apply fdiv_one. unfold float_of_Z63. apply of_uint63_finite.
+Qed.
+
+(* estimation mode too: the estimate is a finite f64, never below the retained count *)
+Lemma estimate_finite : forall c ops s, cfg_ok c -> reach c ops s -> sk_is_empty s = false ->
+  PrimFloat.is_finite (sk_estimate s) = true /\
+  PrimFloat.leb (float_of_Z63 (Nz (t_n s))) (sk_estimate s) = true.
+Proof.
+  intros c ops s Hc Hr Hne.
+  pose proof (theta_pos c ops s Hc Hr (theta0_pos c)) as Hp.
+  pose proof (theta_le_initial c ops s Hc Hr) as Hle. pose proof (theta0_le_max c) as Hm.
+  destruct (capacity c ops s Hc Hr) as [Hcap _].
+  assert (Hn : t_n s < 2 ^ 32).
+  { destruct Hc as [_ [Hmax _]]. destruct lgk_consts as [_ E26]. rewrite E26 in Hmax.
+    assert (2 ^ (c_lg_nom c + 1) <= 2 ^ 27) by (apply N.pow_le_mono_r; lia).
+    change (2 ^ 27) with 134217728 in *. change (2 ^ 32) with 4294967296. lia. }
+  unfold sk_estimate. rewrite Hne. unfold theta_frac. change (float_of_Z63 (Nz MAX_THETA)) with M63.
+  apply estimate_finite_ge.
+  - change (2 ^ 32) with 4294967296 in Hn. unfold Nz. lia.
+  - rewrite max_theta_val' in Hm. unfold Nz. lia.
 Qed.
 
 Lemma compact_spec : forall c ops s ordered, cfg_ok c -> reach c ops s ->
